@@ -181,7 +181,7 @@ def dataset_spec(draw, naming=None, dense=None, raw=None, curated=None, features
     w = _opt(draw, whitening, _present)
     spec['wm'] = w
     spec['wmi_file'] = bool(w and draw(st.booleans()) and not merge_ready)
-    spec['sim'] = True if merge_ready else draw(_present)
+    spec['sim'] = draw(_present)
     # features
     f = True if merge_ready else _opt(draw, features, _present)
     if f:
@@ -192,6 +192,8 @@ def dataset_spec(draw, naming=None, dense=None, raw=None, curated=None, features
             k = draw(st.integers(2, ns))
             rows = sorted(draw(st.lists(st.integers(0, ns - 1), min_size=k, max_size=k,
                                         unique=True)))
+        if rows is not None and draw(st.booleans()):
+            rows = list(draw(st.permutations(rows)))        # row tables need not be sorted
         spec['pcf'] = {'nloc': nloc_f, 'rows': rows,
                        'ind': [list(draw(st.permutations(list(range(nc)))))[:nloc_f]
                                for _ in range(nt)],
@@ -208,6 +210,8 @@ def dataset_spec(draw, naming=None, dense=None, raw=None, curated=None, features
             k = draw(st.integers(2, ns))
             rows = sorted(draw(st.lists(st.integers(0, ns - 1), min_size=k, max_size=k,
                                         unique=True)))
+        if rows is not None and draw(st.booleans()):
+            rows = list(draw(st.permutations(rows)))
         spec['tf'] = {'nloc': nloc_t, 'rows': rows,
                       'ind': [list(draw(st.permutations(list(range(nt)))))[:nloc_t]
                               for _ in range(nt)],
@@ -228,6 +232,7 @@ def dataset_spec(draw, naming=None, dense=None, raw=None, curated=None, features
             rd['parts'] = draw(composition(n_raw, 3))
             rd['offset'] = draw(st.sampled_from([0, 0, 3, 16]))
             rd['ext'] = draw(st.sampled_from(['.dat', '.bin']))
+            rd['names'] = draw(st.sampled_from(['asc', 'desc', 'num']))
         else:
             rd['parts'] = [n_raw]
             rd['offset'] = 0
@@ -410,7 +415,8 @@ def build(spec, dirpath, write_params=True):
         offset = r['offset']
         T.raw = rec.values(spec['n_raw'], spec['ncd'], dtype, spec['seed'] % 17)
         if r['backend'] == 'flat':
-            paths = rec.write_flat(d, T.raw, r['parts'], r['offset'], ext=r['ext'])
+            paths = rec.write_flat(d, T.raw, r['parts'], r['offset'], ext=r['ext'],
+                                   order=r.get('names', 'asc'))
         elif r['backend'] == 'npy':
             np.save(d / 'raw.npy', T.raw)
             paths = [d / 'raw.npy']
